@@ -60,6 +60,10 @@ def _edit(base, route, v):
         return "sp_update", ({"a": v}, True), new
     if route == 8:
         return "sp_update", ({"a": v, "b": 0}, False), None
+    if route == 9:   # multi-key update whose LATER key clashes / whose intermediate state may collide: must be all-or-nothing
+        new["b"] = 0
+        new["a"] = v
+        return "sp_update", ({"b": 0, "a": v}, bool(v)), (new if (v or base.get("a") == v) else None)
     raise ValueError(route)
 
 
@@ -130,10 +134,10 @@ def _rekey_case(bi, route, v, dst_state, prov, sib, payload):
 
 
 def h_rekey(bi: int, route: int, v: int, dst_state: int, prov: int, sib: int, payload: int):
-    assert 0 <= bi < 6 and 0 <= route <= 8 and 0 <= v <= 1 and 0 <= dst_state <= 2 and 0 <= prov <= 2 and 0 <= sib <= 3 and 0 <= payload <= 3 and part_ok(route)
+    assert 0 <= bi < 6 and 0 <= route <= 9 and 0 <= v <= 1 and 0 <= dst_state <= 2 and 0 <= prov <= 2 and 0 <= sib <= 3 and 0 <= payload <= 3 and part_ok(route)
     assert tier() != "quick" or (payload in (0, 3) and prov != 2)
     fresh_path()
-    bi, route, v, dst_state, prov, sib, payload = ci(bi, 0, 5), ci(route, 0, 8), ci(v, 0, 1), ci(dst_state, 0, 2), ci(prov, 0, 2), ci(sib, 0, 3), ci(payload, 0, 3)
+    bi, route, v, dst_state, prov, sib, payload = ci(bi, 0, 5), ci(route, 0, 9), ci(v, 0, 1), ci(dst_state, 0, 2), ci(prov, 0, 2), ci(sib, 0, 3), ci(payload, 0, 3)
     with nt():
         r = _rekey_case(bi, route, v, dst_state, prov, sib, payload)
     if r is None:
@@ -143,8 +147,8 @@ def h_rekey(bi: int, route: int, v: int, dst_state: int, prov: int, sib: int, pa
 
 
 def h_rekey__reach(bi: int, route: int, v: int, dst_state: int, prov: int, sib: int, payload: int):
-    assert 0 <= bi < 6 and 0 <= route <= 8 and 0 <= v <= 1 and 0 <= dst_state <= 2 and 0 <= prov <= 2 and 0 <= sib <= 3 and 0 <= payload <= 3
-    bi, route, v, dst_state = ci(bi, 0, 5), ci(route, 0, 8), ci(v, 0, 1), ci(dst_state, 0, 2)
+    assert 0 <= bi < 6 and 0 <= route <= 9 and 0 <= v <= 1 and 0 <= dst_state <= 2 and 0 <= prov <= 2 and 0 <= sib <= 3 and 0 <= payload <= 3
+    bi, route, v, dst_state = ci(bi, 0, 5), ci(route, 0, 9), ci(v, 0, 1), ci(dst_state, 0, 2)
     with nt():
         base = BASES[bi]
         ed = _edit(base, route, v)
@@ -298,7 +302,7 @@ def h_assign_alias(bi: int, v: int, mut: int, same_session: bool):
 
 HARNESSES = [
     dict(name="h_assign_alias", timeout=(300, 600)),
-    dict(name="h_rekey", twin="h_rekey__reach", timeout=(600, 1500), parts=(9, 9)),
+    dict(name="h_rekey", twin="h_rekey__reach", timeout=(600, 1500), parts=(10, 10)),
     dict(name="h_move_clone", timeout=(400, 900), parts=(4, 4)),
     dict(name="h_update_sp", timeout=(300, 600)),
 ]
